@@ -148,6 +148,14 @@ CHECKS["C18"] = dict(
     design="DESIGN.md §6 C18",
 )
 
+CHECKS["C19"] = dict(
+    category="model_checking",
+    technique="explicit-state search (BX) over process histories, each replayed in a fresh child process on real client sessions (virtual pipes) and through the real Client against a scripted TLS server",
+    text="Every history of length <= 3 (thorough 4) over {touch the built-in default first, session whose server pushes scheme B / C / an unparsable scheme followed by shaped writes, client request on a new session against a scripted TLS server using B / C}: after a parsable push the session's next packets must have exactly the pushed scheme's write sizes (B and C prescribe one 200- / 300-byte write per packet), sessions created afterwards must start with the adopted scheme and announce its md5 so that the server does not push again, an unparsable push changes nothing and the session keeps working; 180 (thorough ~900) child processes.",
+    note="Trusted: the child mimics bin/client.rs (client constructed once with the process default); the scripted TLS server reads the announced padding-md5 from the Settings frame; write sizes are observed on virtual pipes.",
+    design="DESIGN.md §6 C19",
+)
+
 NOT_YET = {
 }
 
